@@ -44,7 +44,7 @@ def why(e):
 
 def main():
     c = vf.Check("C16")
-    tmpl, js, val, seq, hsh = c.build("h_template.asan", "h_json.asan", "h_value.asan", "h_seq.xasan", "h_hash.asan")
+    tmpl, tplain, js, val, seq, hsh = c.build("h_template.asan", "h_template.plain", "h_json.asan", "h_value.asan", "h_seq.xasan", "h_hash.asan")
     r = c.tlc("QMem", "QMem_disciplined", timeout=300, workers=4)
     c.expect_holds(r, "QMem: ExactlyOnce NetZero")
     for cfg, inv in (("QMem_double-release", "ExactlyOnce"), ("QMem_leak", "NetZero")):
@@ -61,20 +61,21 @@ def main():
     # (a) templates of C01: render + cache lifetimes
     cases = C01.gen_cases(c)
     if not c.thorough:
-        cases = cases[::2]
+        cases = cases[::3]
     inp = os.path.join(c.out, "templates.txt")
     C01.write_cases(inp, cases)
-    for mode in ("render", "cache"):
-        os.environ["VERIF_LEDGER"] = led("template_" + mode)
-        out = os.path.join(c.out, mode + ".ndjson")
-        crashes = walk.run_cases(c, tmpl, mode, inp, out, "template-%s-memory" % mode, max_restarts=40)
+    # (the optimised build without ASan lets a double release reach the ledger instead of aborting at the first stale read)
+    for mode, binary, tag in (("render", tmpl, "render"), ("cache", tmpl, "cache"), ("render", tplain, "render-plain"), ("cache", tplain, "cache-plain")):
+        os.environ["VERIF_LEDGER"] = led("template_" + tag)
+        out = os.path.join(c.out, tag + ".ndjson")
+        crashes = walk.run_cases(c, binary, mode, inp, out, "template-%s-memory" % tag, max_restarts=40)
         if mode == "cache" and os.path.exists(out):
             for e in vf.read_ndjson(out):
                 if e["same"] != 1:
                     c.violation("template-cache-memory a copied / moved / assigned / reused tag cache renders differently template=%r" % "".join(chr(u) for u in e["t"])[:200],
                                 {"kind": "cache-differs", "event": e})
-        c.stage("template-" + mode, cases=len(cases), crashes=crashes)
-        ledgers.append(("template-" + mode, os.environ["VERIF_LEDGER"], lambda k, cases=cases: "template=%r" % cases[k][0][:160] if k < len(cases) else "?"))
+        c.stage("template-" + tag, cases=len(cases), crashes=crashes)
+        ledgers.append(("template-" + tag, os.environ["VERIF_LEDGER"], lambda k, cases=cases: "template=%r" % cases[k][0][:160] if k < len(cases) else "?"))
         if os.path.exists(out):
             os.remove(out)
     os.remove(inp)
@@ -110,12 +111,22 @@ def main():
     for label, path, describe in ledgers:
         if not os.path.exists(path) or os.path.getsize(path) == 0:
             raise vf.MachineryError("no ledger recorded for " + label)
-        nscopes = nev = 0
-        keys = []
+        nscopes = nev = dropped = 0
+        good = []
         with open(path) as f:
             for ln in f:
+                try:                      # a case that crashed may leave an incomplete line
+                    json.loads(ln)
+                except ValueError:
+                    dropped += 1
+                    continue
+                good.append(ln)
                 nscopes += 1
                 nev += ln.count(",")
+        if dropped:
+            c.log("ledger %s: %d incomplete line(s) dropped (crashed cases)" % (label, dropped))
+            with open(path, "w") as f:
+                f.writelines(good)
         total_ev += nev
 
         def sig(e, label=label, describe=describe):
